@@ -55,9 +55,13 @@ Definition run_pca (mode : Z) (nv : nat) (cols : list (list (option Q))) (sel : 
       mat_resid nv nv (fmulr nv (ftr (get Z2F)) (fmulr nv (get c0) (get Z2F))) delta;
       mat_resid nv nv (fmulr nv (get Zi) (get Fi)) delta;
       mat_resid nv nv (fmulr nv (get Fi) (get Zi)) delta ] in
+  let c0inv := inv_checked nv c0 in
+  let ninf := fun (M : mat) => qmaxl (map (fun i => sumnr nv (fun j => Qabs (get M i j))) (seq 0 nv)) in
   L [ ofList ofB (map (isotopic nv) db); ofNat (length rows); ofVec mean; ofVec var; ofMat c0; ofMat Z2F;
       match F2Zo with Some m => ofMat m | None => L [] end;
-      ofList ofORow factors; ofList ofORow back; ofVec resid; ofList ofORow xback ].
+      ofList ofORow factors; ofList ofORow back; ofVec resid; ofList ofORow xback;
+      (* is the exact covariance matrix invertible, and its inf-norm condition number *)
+      match c0inv with Some Ci => L [I 1; ofQ (ninf c0 * ninf Ci)] | None => L [I 0; ofQ 0] end ].
 
 (* ---- kind 1: hermitePolynomials.  (1 y r n sq) -> (code recurrence with the harvested roots, unnormalised h_k r^k, k!) *)
 Definition sqfun (sq : list Q) : nat -> Q := fun k => vget sq k.
@@ -156,6 +160,38 @@ Definition run_anam_tbl (A : anam) (tbl : list (Q * Q)) (yq zq : list (option Q)
       ofQa (dzmax_of phi) ].
 Definition run_anam (A : anam) (yq zq : list (option Q)) : sx := run_anam_tbl A (mk_table A) yq zq.
 
+(* _defineBounds replayed on the raw expansion: predicted bounds, where they come from, and the smallest relative margin of the
+   comparisons made on the grid (against pzmin, pzmax, their mean, and between neighbours) *)
+Definition bounds_keys : list Q := rev (grid_dn 100 0) ++ 0 :: grid_up 100 0.
+Definition kind_of (r : option Q * option (Q * Q)) : Z :=
+  match r with (Some _, _) => 2 | (None, Some _) => 1 | (None, None) => 0 end%Z.
+Definition run_bounds_tbl (A : anam) (tbl : list (Q * Q)) (sabs : list Q) (pb : list Q) : sx :=
+  match pb with
+  | [pymin; pzmin; pymax; pzmax] =>
+      let phi := memo_phi tbl (expansion (an_psi A) (an_sq A)) in
+      let B := define_bounds phi pymin pzmin pymax pzmax in
+      let mid := (pzmin + pzmax) / 2 in
+      let zs := map snd tbl in
+      let marg :=
+        (fix go (zs ss : list Q) (m : Q) : Q :=
+           match zs, ss with
+           | z :: ((z' :: _) as zt), s :: ((s' :: _) as st) =>
+               let sc := s + s' + Qabs pzmin + Qabs pzmax in
+               let d := qmin (qmin (Qabs (z - pzmin)) (Qabs (z - pzmax))) (qmin (Qabs (z - mid)) (Qabs (z' - z))) in
+               go zt st (qmin m (d / sc))
+           | _, _ => m
+           end) zs sabs 1 in
+      L [ ofVeca [b_azmin B; b_azmax B; b_aymin B; b_aymax B; b_pzmin B; b_pzmax B; b_pymin B; b_pymax B];
+          I (kind_of (b_lo B)); I (kind_of (b_hi B)); ofQa marg ]
+  | _ => L []
+  end.
+Definition run_bounds (A : anam) (pb : list Q) : sx :=
+  match pb with
+  | [] => L []
+  | _ => run_bounds_tbl A (map (fun y => (y, expansion (an_psi A) (an_sq A) y)) bounds_keys)
+                        (map (fun y => abs_expansion A y) bounds_keys) pb
+  end.
+
 (* ---- kind 3: normal score.  (3 data wt) -> probability by sample index (or ()) ; () when the code refuses *)
 Definition run_ns (data : list (option Q)) (wt : list Q) : sx :=
   match ns_probs data wt with
@@ -193,12 +229,16 @@ Definition run (c : sx) : sx :=
       | Some y', Some r', Some n', Some sq' => run_hermite y' r' n' sq'
       | _, _, _, _ => sx_error 1
       end
-  | L [I 2%Z; fb; psi; sq; az; ay; pz; py; yq; zq] =>
-      match asB fb, asVec psi, asVec sq, asInterval az, asInterval ay, asInterval pz, asInterval py, asOVec yq, asOVec zq with
-      | Some fb', Some psi', Some sq', Some az', Some ay', Some pz', Some py', Some yq', Some zq' =>
-          run_anam {| an_flagBound := fb'; an_az := az'; an_ay := ay'; an_pz := pz'; an_py := py';
-                      an_psi := psi'; an_sq := sqfun sq' |} yq' zq'
-      | _, _, _, _, _, _, _, _, _ => sx_error 1
+  | L [I 2%Z; fb; psi; sq; az; ay; pz; py; yq; zq; pb] =>
+      match asB fb, asVec psi, asVec sq, asInterval az, asInterval ay, asInterval pz, asInterval py, asOVec yq, asOVec zq, asVec pb with
+      | Some fb', Some psi', Some sq', Some az', Some ay', Some pz', Some py', Some yq', Some zq', Some pb' =>
+          let A := {| an_flagBound := fb'; an_az := az'; an_ay := ay'; an_pz := pz'; an_py := py';
+                      an_psi := psi'; an_sq := sqfun sq' |} in
+          match run_anam A yq' zq' with
+          | L l => L (l ++ [run_bounds A pb'])
+          | r => r
+          end
+      | _, _, _, _, _, _, _, _, _, _ => sx_error 1
       end
   | L [I 3%Z; data; wt] =>
       match asOVec data, asVec wt with
